@@ -34,6 +34,9 @@ OPS = ['sum', 'mean', 'min', 'max', 'variance', 'stddev', 'fvariance', 'fstddev'
 
 def expand(spec):
     if spec['kind'] == 'short':
+        if spec.get('numpy'):
+            import numpy
+            return [numpy.float64(x) if isinstance(x, float) else x for x in spec['xs']]       # values as they come out of pandas / numpy
         return list(spec['xs'])
     n, shape = spec['n'], spec['shape']
     off = spec['off_m'] * 10.0 ** spec['off_e']
@@ -249,7 +252,8 @@ FLOATS = st.one_of(
 def case_gen(draw, long_max):
     kind = draw(st.sampled_from(['short', 'short', 'short', 'long']))
     if kind == 'short':
-        data = {'kind': 'short', 'xs': draw(st.lists(FLOATS, min_size=draw(st.sampled_from([0, 1, 2, 3])), max_size=12))}
+        data = {'kind': 'short', 'xs': draw(st.lists(FLOATS, min_size=draw(st.sampled_from([0, 1, 2, 3])), max_size=12)),
+                'numpy': draw(st.integers(0, 3)) == 0}
     else:
         data = {'kind': 'long', 'n': draw(st.sampled_from([10, 100, 300, long_max // 2, long_max])), 'off_m': draw(st.sampled_from([0.0, 1.0, -3.0, 7.25])),
                 'off_e': draw(st.integers(-6, 9)), 'scale_e': draw(st.integers(-13, 6)),
